@@ -5,7 +5,7 @@
 From Coq Require Import List NArith ZArith.
 From Muscle Require Import Refl.Base Refl.BaseProofs Refl.Tree Refl.TreeProofs Refl.Matcher Refl.MatcherProofs
      Refl.Traverse Refl.TraverseSpec Refl.Session Refl.Server Refl.ServerProofs Refl.RefcountProofs
-     Refl.Concrete Refl.Examples Refl.Mirror Refl.MirrorBase Refl.MirrorCmd Refl.MirrorFrame Refl.MirrorQuiet Refl.MirrorProofs
+     Refl.Concrete Refl.Examples Refl.Mirror Refl.MirrorBase Refl.MirrorCmd Refl.MirrorFrame Refl.MirrorQuiet Refl.MirrorTail Refl.MirrorProofs
      Refl.MirrorCheck Refl.MirrorExamples Refl.Params Refl.ParamsProofs Refl.ParamsExamples.
 
 (* refcount_inv (full): in every reachable state, for every node n and session id s, the node's subscriber table
@@ -68,13 +68,15 @@ Proof. exact ex1_nontrivial. Qed.
 (* mirror_converges_partial.  Premises besides MatchLaws: the three repairs are in (fx = all_fixed on the repaired tree);
    a session arrives under a fresh (host, name) pair (wf_wrun); fewer than 2^31-1 SUBSCRIBE: items; and, read along the
    run (ok_wrun), for every command of session b in the state it meets:
-   * ev_ok o -- quiet flags: every change of the tree is announced (no quiet SETDATA / REMOVEDATA) and the observed session
-     o does not subscribe quietly (other sessions may): cmd_loud_for; OR b is another session below whose session node none
-     of o's subscription paths reaches (hidden_data), then b may use any quiet flag (lemma quiet_frame); batches nested
-     below the server's limit;
+   * ev_ok o -- quiet flags: every change of the tree by ANOTHER session is announced (no quiet SETDATA / REMOVEDATA; o's own
+     may be quiet: they touch its own subtree only) and the observed session o does not subscribe quietly (other sessions
+     may): cmd_loud_for; OR b is another session below whose session node none of o's subscription paths reaches
+     (hidden_data), then b may use any quiet flag (lemma quiet_frame); batches nested below the server's limit;
    * ev_clean o -- what o itself sends: the SUBSCRIBE: fields of each of its Messages have distinct non-empty paths, the
      keys of an explicit GETDATA are subscriptions it holds at that moment (same path, same filter: cmd_covered, threaded
-     through a BATCH; lemma getdata_covered_J), and an unsubscribe is a Message of its own (not inside a BATCH).
+     through a BATCH; lemma getdata_covered_J), and an unsubscribe is a Message of its own or sits in the tail of a BATCH:
+     once o has unsubscribed inside a BATCH only unsubscribes, SETDATA, REMOVEDATA and max-items changes follow in that BATCH
+     (the client prunes once, after the BATCH; lemmas tail_fold, prune_J, batch_tail_world_J).
    Client-mirror rule: Refl/Mirror.v (removals first, then sets; on its own unsubscribe the client drops what its
    remaining subscriptions no longer cover).
    Conclusion, at the quiescent point after ANY such history (any number of sessions coming and going, creation,
@@ -83,8 +85,8 @@ Proof. exact ex1_nontrivial. Qed.
    own nodes exactly the node's current payload if one of o's subscriptions (path and filter) accepts it, and nothing
    otherwise -- none missing, none stale, none extra.
    FULL statement not yet proved: quiet set/remove on nodes the observer's subscription paths do reach (the statement would
-   then be restricted to the nodes whose last change was announced), unsubscribes inside the observer's batches,
-   reflect-to-self, ordered indices. *)
+   then be restricted to the nodes whose last change was announced), a SUBSCRIBE: or GETDATA after an unsubscribe inside
+   one BATCH of the observer, reflect-to-self, ordered indices. *)
 Theorem C04_mirror_converges_partial :
   forall (M : MatchOps) (L : MatchLaws M) (fx : fixes),
   fx_guard fx = true -> fx_overlap fx = true -> fx_push fx = true ->
@@ -177,3 +179,14 @@ Example C04_mirror_quiet_nontrivial :
   /\ option_map (fun c => length (c_mirror c)) (find (fun c => N.eqb (c_id c) 0%N) (w_clients (world_run all_fixed exq empty_world))) = Some 1%nat
   /\ length (sv_tree (w_srv (world_run all_fixed exq empty_world))) = 7%nat.
 Proof. exact exq_nontrivial. Qed.
+
+(* ... and by a history in which the observer switches subscriptions inside one BATCH (SUBSCRIBE: the new one, unsubscribe
+   the old one) *)
+Example C04_mirror_premises_satisfiable_batch_unsubscribe : premises_b all_fixed exb 0%N = true.
+Proof. exact exb_premises. Qed.
+Example C04_mirror_batch_unsubscribe_nontrivial :
+  holds_at (world_run all_fixed exb empty_world) 0%N (1 :: 11 :: 21 :: nil)%N = true
+  /\ holds_at (world_run all_fixed exb empty_world) 0%N (1 :: 11 :: 22 :: nil)%N = true
+  /\ option_map (fun c => length (c_mirror c)) (find (fun c => N.eqb (c_id c) 0%N) (w_clients (world_run all_fixed (firstn 4 exb) empty_world))) = Some 2%nat
+  /\ option_map (fun c => length (c_mirror c)) (find (fun c => N.eqb (c_id c) 0%N) (w_clients (world_run all_fixed exb empty_world))) = Some 1%nat.
+Proof. exact exb_nontrivial. Qed.
